@@ -154,13 +154,26 @@ static inline int notifycnt_predec(int *p)
 /* wait_for(lock, d, pred): true as soon as pred() holds; after the timeout the final value of pred() */
 #define CONDVAR_WAIT_FOR(cv, m, callfn, clos) (callfn(clos))
 
+/* the two argument-passing forms: unit "queue" is instantiated with ArgumentPassingIncludeEvent and a user getEvent policy
+ * (the event is a fixed function of the argument value); unit "queuex" (-DUNIT_QUEUEX, same spec) with
+ * ArgumentPassingExcludeEvent and the default getEvent: the event is the separate first argument, ANY event goes with
+ * any argument value */
+#ifdef UNIT_QUEUEX
+#define EVT_TIE(evt, id) 1
+#define ENQ_ARGS_FRESH (__CPROVER_is_fresh(args, sizeof(VArg)) && __CPROVER_is_fresh(first, sizeof(int)))
+#define ENQ_EVT __CPROVER_old(*first)
+#else
+#define EVT_TIE(evt, id) ((evt) == ((id) ^ 0x2a))
+#define ENQ_ARGS_FRESH __CPROVER_is_fresh(args, sizeof(VArg))
+#define ENQ_EVT (__CPROVER_old(args->id) ^ 0x2a)
+#endif
 /* ================================================================== representation invariant of the queue (G) */
 #define TAGQ FN_TAG(commonDtor, QueuedEvent)
 /* written as macros so that loop invariants (which may not contain calls) can use them */
 #define WL_OK_M(l) ((l).len >= 0 && (l).len < (1L << 62) && (l).w[0] >= -1 && (l).w[0] < (l).len && (l).w[1] >= -1 && (l).w[1] < (l).len && ((l).w[0] < 0 || (l).w[0] != (l).w[1]))
 #define SLOT_OK_M(k)     (((g_S[k].dtor != NULL) == g_cons[k]) && (g_S[k].dtor == NULL || g_S[k].dtor == TAGQ))      /* dtor != nullptr <=> payload constructed */
 #define SLOT_QUEUED_M(k) (g_born[k] && !g_dead[k] && g_cons[k] && g_S[k].dtor == TAGQ && g_disp[k] == 0 && !g_taken[k] && \
-                          g_S[k].buffer.arguments.a0.id == g_argid[k] && g_S[k].buffer.event == (g_argid[k] ^ 0x2a))   /* holds exactly what was enqueued */
+                          g_S[k].buffer.arguments.a0.id == g_argid[k] && EVT_TIE(g_S[k].buffer.event, g_argid[k]))   /* holds exactly what was enqueued */
 #define SLOT_FREE_M(k)   (g_born[k] && !g_dead[k] && !g_cons[k] && g_S[k].dtor == NULL)
 #define Q_OK_K(q, k) (!g_born[k] ? ((q)->queueList.w[k] < 0 && (q)->freeList.w[k] < 0 && !g_cons[k] && !g_dead[k]) \
                                  : (SLOT_OK_M(k) && !((q)->queueList.w[k] >= 0 && (q)->freeList.w[k] >= 0) && \
@@ -225,7 +238,7 @@ static inline _Bool q_ok(const Q *q) { return Q_OK_M(q); }
  * takes a recycled slot (or creates one), constructs the event in it, appends it at the END of queueList */
 #define CONTRACT_Q_doEnqueue \
   __CPROVER_requires(Q_FRESH(self) && __CPROVER_is_fresh(item, sizeof(QueuedEvent))) \
-  __CPROVER_requires(NOLOCKS(self) && q_ok(self) && Q_SMALL(self) && item->event == (item->arguments.a0.id ^ 0x2a)) \
+  __CPROVER_requires(NOLOCKS(self) && q_ok(self) && Q_SMALL(self) && EVT_TIE(item->event, item->arguments.a0.id)) \
   __CPROVER_assigns(self->queueList, self->freeList, self->queueListMutex.depth, self->freeListMutex.depth, item->arguments.a0.id, GHOSTS) \
   __CPROVER_ensures(NOLOCKS(self) && q_ok(self)) \
   __CPROVER_ensures(self->queueList.len == __CPROVER_old(self->queueList.len) + 1 && self->freeList.len == (__CPROVER_old(self->freeList.len) > 0 ? __CPROVER_old(self->freeList.len) - 1 : 0)) \
@@ -238,7 +251,7 @@ static inline _Bool q_ok(const Q *q) { return Q_OK_M(q); }
  * statement: the event is queued "with the argument values it had when enqueue was called" under the key getEvent
  * yields from those values; an lvalue argument of the caller is left untouched */
 #define ENQ_CONTRACT(LV) \
-  __CPROVER_requires(Q_FRESH(self) && __CPROVER_is_fresh(args, sizeof(VArg)) && !g_dirty) \
+  __CPROVER_requires(Q_FRESH(self) && ENQ_ARGS_FRESH && !g_dirty) \
   __CPROVER_requires(NOLOCKS(self) && q_ok(self) && Q_SMALL(self)) \
   __CPROVER_assigns(self->queueList, self->freeList, self->queueListMutex.depth, self->freeListMutex.depth, self->queueListConditionVariable.notified, GHOSTS) \
   __CPROVER_assigns(!(LV): args->id) \
@@ -247,9 +260,13 @@ static inline _Bool q_ok(const Q *q) { return Q_OK_M(q); }
   __CPROVER_ensures(ENQ2_NEW_HOLDS(0) && ENQ2_NEW_HOLDS(1)) \
   __CPROVER_ensures((LV) ==> args->id == __CPROVER_old(args->id)) \
   __CPROVER_ensures((self->queueNotifyCounter == 0) ==> self->queueListConditionVariable.notified == __CPROVER_old(self->queueListConditionVariable.notified) + 1)
-#define ENQ2_NEW_HOLDS(k) (self->queueList.w[k] == __CPROVER_old(self->queueList.len) ==> (g_argid[k] == __CPROVER_old(args->id) && g_S[k].buffer.event == (__CPROVER_old(args->id) ^ 0x2a) && g_S[k].buffer.arguments.a0.id == __CPROVER_old(args->id)))
+#define ENQ2_NEW_HOLDS(k) (self->queueList.w[k] == __CPROVER_old(self->queueList.len) ==> (g_argid[k] == __CPROVER_old(args->id) && g_S[k].buffer.event == ENQ_EVT && g_S[k].buffer.arguments.a0.id == __CPROVER_old(args->id)))
 #define CONTRACT_Q_enqueue ENQ_CONTRACT(1)
 #define CONTRACT_Q_enqueue_2 ENQ_CONTRACT(0)
+/* unit queuex: enqueue(T && first, A && ...args), lvalue / rvalue argument; the library's default getEvent */
+#define CONTRACT_Q_enqueue__int ENQ_CONTRACT(1)
+#define CONTRACT_Q_enqueue__int_2 ENQ_CONTRACT(0)
+#define CONTRACT_Pol_getEvent2 __CPROVER_assigns() __CPROVER_ensures(__CPROVER_return_value == *a0)
 
 
 /* ================================================================== process (eventqueue.h:206)
